@@ -1430,7 +1430,7 @@ fn cmd_drive(args: &[String]) -> i32 {
     let exe = std::env::current_exe().expect("exe");
     let tier = arg(args, "--tier").unwrap_or("quick").to_string();
     let seed = driver::env_seed();
-    let (dw, db) = if tier == "thorough" { (40_000_000u64, 300_000u64) } else { (1_600_000, 20_000) };
+    let (dw, db) = if tier == "thorough" { (120_000_000u64, 600_000u64) } else { (1_600_000, 20_000) };
     let worlds = arg(args, "--worlds").and_then(|s| s.parse().ok()).or_else(|| std::env::var("VERIF_WORLDS").ok().and_then(|s| s.parse().ok())).unwrap_or(dw);
     let budget_ms = arg_u64(args, "--budget-ms", db);
     let ncpu = driver::online_cpus();
